@@ -2332,3 +2332,66 @@ theorem ofOpt_wf [Zero K] (r c : Nat) (ent : Array (Option K)) : WF (ofOpt r c e
     rw [h1]
     exact mem_colList r c ent j _ (List.getElem_mem _)
 end Piqp.Csc
+
+/-! ## Storage level: the guard is complete as well (binary search finds what is there) -/
+
+namespace Piqp.Csc
+variable {K : Type}
+
+/-- the binary search of `is_transpose_pattern` finds a value that is present in a strictly increasing segment -/
+theorem bsearch_finds (inner : Array Nat) (j q L H : Nat)
+    (hmono : ∀ a b, L ≤ a → a < b → b < H → inner.getD a 0 < inner.getD b 0) (hqH : q < H) (hj : inner.getD q 0 = j)
+    (lo hi : Nat) (hL : L ≤ lo) (hH : hi ≤ H) (h1 : lo ≤ q) (h2 : q ≤ hi) : bsearch inner j lo hi = q := by
+  fun_induction bsearch inner j lo hi
+  case case1 lo hi hlt mid hmid ih =>
+    -- inner[mid] < j = inner[q]  ⇒  mid < q
+    have hmq : mid < q := by
+      rcases Nat.lt_or_ge mid q with h | h
+      · exact h
+      · exfalso
+        rcases Nat.lt_or_eq_of_le h with h' | h'
+        · have := hmono q mid (by omega) h' (by omega)
+          omega
+        · subst h'; omega
+    exact ih (by omega) hH (by omega) h2
+  case case2 lo hi hlt mid hmid ih =>
+    have hqm : q ≤ mid := by
+      rcases Nat.lt_or_ge mid q with h | h
+      · exfalso
+        have := hmono mid q (by omega) h hqH
+        omega
+      · exact h
+    exact ih hL (by omega) h1 hqm
+  case case3 lo hi hlt => omega
+
+/-- **the guard accepts every matching pair** (completeness; `guard_ready` is the soundness half): matching dimensions and entry
+    counts, strictly increasing rows in every column of `A` and of `C`, and every stored entry `(i, j)` of `A` present as row `j` in
+    column `i` of `C` make `is_transpose_pattern(A, C)` answer `true` — a valid sparse `update()` is never rejected -/
+theorem guard_complete (A C : Csc K) (hd1 : A.cols = C.rows) (hd2 : A.rows = C.cols)
+    (hnnz : A.outer.getD A.cols 0 = C.outer.getD C.cols 0)
+    (hAinc : ∀ j, j < A.cols → ∀ k ∈ A.colRange j, A.outer.getD j 0 < k → A.inner.getD (k - 1) 0 < A.inner.getD k 0)
+    (hCinc : ∀ i, i < C.cols → ∀ a b, C.outer.getD i 0 ≤ a → a < b → b < C.outer.getD (i + 1) 0 → C.inner.getD a 0 < C.inner.getD b 0)
+    (hrows : ∀ j, j < A.cols → ∀ k ∈ A.colRange j, A.inner.getD k 0 < A.rows)
+    (hfound : ∀ j, j < A.cols → ∀ k ∈ A.colRange j, ∃ q, C.outer.getD (A.inner.getD k 0) 0 ≤ q ∧ q < C.outer.getD (A.inner.getD k 0 + 1) 0 ∧
+      C.inner.getD q 0 = j) :
+    isTransposePattern A C = true := by
+  unfold isTransposePattern
+  have hd : ¬ ((A.cols ≠ C.rows || A.rows ≠ C.cols || A.outer.getD A.cols 0 ≠ C.outer.getD C.cols 0) = true) := by
+    simp only [ne_eq, Bool.or_eq_true, decide_eq_true_eq, not_or, not_not]
+    exact ⟨⟨hd1, hd2⟩, hnnz⟩
+  rw [if_neg hd, List.all_eq_true]
+  intro j hj
+  have hj' := List.mem_range.mp hj
+  rw [List.all_eq_true]
+  intro k hk
+  obtain ⟨q, q1, q2, q3⟩ := hfound j hj' k hk
+  have hi := hrows j hj' k hk
+  have hb := bsearch_finds C.inner j q (C.outer.getD (A.inner.getD k 0) 0) (C.outer.getD (A.inner.getD k 0 + 1) 0)
+    (hCinc (A.inner.getD k 0) (by omega)) q2 q3 _ _ (Nat.le_refl _) (Nat.le_refl _) q1 (by omega)
+  simp only [hb, Bool.and_eq_true, Bool.not_eq_true', Bool.and_eq_false_iff, decide_eq_false_iff_not, Bool.or_eq_false_iff,
+    beq_eq_false_iff_ne, bne_eq_false_iff_eq, Nat.not_le]
+  refine ⟨?_, by omega, q3⟩
+  by_cases hlt : A.outer.getD j 0 < k
+  · right; exact hAinc j hj' k hk hlt
+  · left; exact hlt
+end Piqp.Csc
